@@ -526,6 +526,22 @@ def replay(w):
                 if _norm(dict(cfg)) != _norm(ref):
                     return True, 'del cfg[%r] removed something else' % key
             return False, 'ok'
+        if w.get('kind') == 'deep':
+            cfg = S.get_config(w['variant'])
+            for how in ('set', 'get', 'del'):
+                try:
+                    if how == 'set':
+                        cfg[w['key']] = 1
+                    elif how == 'get':
+                        cfg[w['key']]
+                    else:
+                        del cfg[w['key']]
+                    return True, 'a 4-level key path was accepted by %s' % how
+                except ValueError:
+                    pass
+                except Exception as ex:
+                    return True, 'a 4-level key path (%s) raised %s instead of ValueError' % (how, type(ex).__name__)
+            return False, 'ok'
         if w.get('kind') == 'defaults':
             v = w['variant']
             x = _x()
@@ -642,12 +658,8 @@ def refute(tier, seed, emit):
         if emit.full:
             return
     # too deep
-    cfg = emd.sift.get_config('sift')
     emit.case(('deep',), contract='SiftConfig')
-    try:
-        cfg['extrema_opts/loc_pad_opts/mode/x'] = 1
-        emit.violation('key-path-too-deep-rejected', {'kind': 'keypath', 'variant': 'sift', 'edits': [['extrema_opts/loc_pad_opts/mode/x', 1]]}, 'a 4-level key path was accepted')
-    except ValueError:
-        pass
-    except Exception as ex:
-        emit.violation('key-path-too-deep-rejected', {'kind': 'keypath', 'variant': 'sift', 'edits': [['extrema_opts/loc_pad_opts/mode/x', 1]]}, 'a 4-level key path raised %s' % type(ex).__name__)
+    w = {'kind': 'deep', 'variant': 'sift', 'key': 'extrema_opts/loc_pad_opts/mode/x'}
+    ok, msg = replay(w)
+    if ok:
+        emit.violation('key-path-too-deep-rejected', w, msg)
